@@ -45,6 +45,7 @@ func (cq *ConcurrentQueue) ChanOut() <-chan interface{} {
 // overflow queue. This must be called before using the queue.
 func (cq *ConcurrentQueue) Start() {
 	go func() {
+		defer func() { verifQueueEvent(cq, "exit", nil, cq.overflow.Len()) }()
 		for {
 			nextElement := cq.overflow.Front()
 			if nextElement == nil {
@@ -54,14 +55,19 @@ func (cq *ConcurrentQueue) Start() {
 				// we'll push to the overflow list instead.
 				select {
 				case item := <-cq.chanIn:
+					verifQueueEvent(cq, "in", item, cq.overflow.Len())
 					select {
 					case cq.chanOut <- item:
+						verifQueueEvent(cq, "handoff", item, cq.overflow.Len())
 					case <-cq.quit:
+						verifQueueEvent(cq, "quit", item, cq.overflow.Len())
 						return
 					default:
 						cq.overflow.PushBack(item)
+						verifQueueEvent(cq, "push", item, cq.overflow.Len())
 					}
 				case <-cq.quit:
+					verifQueueEvent(cq, "quit", nil, cq.overflow.Len())
 					return
 				}
 			} else {
@@ -71,9 +77,12 @@ func (cq *ConcurrentQueue) Start() {
 				select {
 				case item := <-cq.chanIn:
 					cq.overflow.PushBack(item)
+					verifQueueEvent(cq, "enq", item, cq.overflow.Len())
 				case cq.chanOut <- nextElement.Value:
 					cq.overflow.Remove(nextElement)
+					verifQueueEvent(cq, "out", nextElement.Value, cq.overflow.Len())
 				case <-cq.quit:
+					verifQueueEvent(cq, "quit", nil, cq.overflow.Len())
 					return
 				}
 			}
